@@ -4,7 +4,9 @@
    The model mirrors the tree WITH the fix commits of branch fix-C04 (props/C04/NOTES.md): on the tree
    without them the first version of this slice proved `_refuted` theorems for T1 and T3; the
    inputs of those witnesses are the Examples E1, E3, E4 at the end of this file and are replayed on the
-   C++ at every run of the check. *)
+   C++ at every run of the check.  One defect remains in the tree (hideJacobian without any force applied
+   to the variable, known_findings.txt): T1 and its corollaries carry the side condition [jac_ok] and the
+   unconditional statement is refuted by W5. *)
 From Coq Require Import ZArith QArith List Bool Reals Lia.
 From CV Require Import Base.Num Base.RNum C04.ABFModel C04.ABFProofs C04.ABFWitness.
 Import ListNotations.
@@ -19,39 +21,53 @@ Import ListNotations.
     subtractAppliedForce] + the Jacobian term unless hideJacobian),
    in both timing conventions, with other biases, run boundaries, values inside and outside the grid,
    one or more variables.  [wf_cfg]: stepZeroData only with same-step forces (the code rejects it
-   otherwise). *)
-Theorem C04_abf_state_is_sample_sum :
+   otherwise).
+
+   FULL STATEMENT (false of the code, see _refuted below): without [jac_ok c].
+   [jac_ok c]: with hideJacobian in the lagged convention, every variable has a bias applying forces to it
+   (applyBias on, or another bias).  It is vacuous without hideJacobian and with same-step forces. *)
+Theorem C04_abf_state_is_sample_sum_partial :
   forall (c : @abf_cfg R) (h : list (@abf_in R)) (b : idx),
-    wf_cfg c ->
+    wf_cfg c -> jac_ok c ->
     s_cnt (fst (abf_run Rops c h)) b = cnt_of b (attributed Rops c (trace_of Rops c h)) /\
     forall k, (k < c_nd c)%nat ->
       vget Rops (s_sum (fst (abf_run Rops c h)) b) k = (- fsum_of Rops k b (attributed Rops c (trace_of Rops c h)))%R.
 Proof. exact abf_state_is_sample_sum. Qed.
-Print Assumptions C04_abf_state_is_sample_sum.
+Print Assumptions C04_abf_state_is_sample_sum_partial.
+
+(* W5: hideJacobian, lagged forces, applyBias off, no other bias, Jacobian force 3, engine force 1: the
+   stored sum of bin [0] is -8 (samples 4 and 4), minus the attributed samples (1 and 1) is -2. *)
+Theorem C04_abf_state_is_sample_sum_refuted :
+  exists (c : @abf_cfg Q) (h : list (@abf_in Q)) (b : idx),
+    c_szd c = false /\ c_hidej c = true /\ c_same_step c = false /\ c_apply c = false /\
+    stored_cnt c h b = spec_cnt c h b /\
+    Qeq_bool (stored_sum c h b 0) (spec_sum c h b 0) = false.
+Proof. exists w5_cfg, w5_hist, [0%Z]. vm_compute. repeat split; reflexivity. Qed.
+Print Assumptions C04_abf_state_is_sample_sum_refuted.
 
 (* the same for the whole vector stored in the bin *)
-Theorem C04_abf_sum_vector :
+Theorem C04_abf_sum_vector_partial :
   forall (c : @abf_cfg R) (h : list (@abf_in R)) (b : idx),
-    wf_cfg c ->
+    wf_cfg c -> jac_ok c ->
     s_sum (fst (abf_run Rops c h)) b
     = vbuild (c_nd c) (fun k => (- fsum_of Rops k b (attributed Rops c (trace_of Rops c h)))%R).
 Proof. exact abf_sum_vector. Qed.
-Print Assumptions C04_abf_sum_vector.
+Print Assumptions C04_abf_sum_vector_partial.
 
 (* ---- T1'.  The property as worded: the stored free-energy gradient of every bin (what
    colvar_grid_gradient::value_output writes to the state and .grad files, [grad_out] = sum / count) is
    MINUS THE ARITHMETIC MEAN of the forces of the samples attributed to the bin, the stored count is their
    number, and the gradient of a bin without samples is 0. *)
-Theorem C04_stored_gradient_is_minus_mean :
+Theorem C04_stored_gradient_is_minus_mean_partial :
   forall (c : @abf_cfg R) (h : list (@abf_in R)) (b : idx) (k : nat),
-    wf_cfg c -> (k < c_nd c)%nat ->
+    wf_cfg c -> jac_ok c -> (k < c_nd c)%nat ->
     let s := fst (abf_run Rops c h) in
     let S := attributed Rops c (trace_of Rops c h) in
     s_cnt s b = cnt_of b S /\
     ((0 < cnt_of b S)%Z -> grad_out Rops (s_cnt s) (s_sum s) b k = (- mean_force S b k)%R) /\
     (cnt_of b S = 0%Z -> grad_out Rops (s_cnt s) (s_sum s) b k = 0%R).
 Proof. exact stored_gradient_is_minus_mean. Qed.
-Print Assumptions C04_stored_gradient_is_minus_mean.
+Print Assumptions C04_stored_gradient_is_minus_mean_partial.
 
 (* ---- T2.  The ABF force handed to variable k at the step that follows any history is
    ramp(count b) * (sum b / count b) for the current bin b (count and sum AFTER this step's accumulation),
@@ -72,14 +88,14 @@ Print Assumptions C04_applied_force.
    step i, the ABF force of that step is [spec_force_samples] of the samples attributed in h ++ [i]:
    ramp(N_b) * (- arithmetic mean of the N_b sample forces of the current bin b), minus the grid average of
    the same quantity for one periodic variable, clipped to +-maxForce, 0 outside the grid / applyBias off. *)
-Theorem C04_applied_force_is_smoothed_negative_mean :
+Theorem C04_applied_force_is_smoothed_negative_mean_partial :
   forall (c : @abf_cfg R) (h : list (@abf_in R)) (i : @abf_in R) (k : nat),
-    wf_cfg c -> (k < c_nd c)%nat -> (0 <= c_min c < c_full c)%Z ->
+    wf_cfg c -> jac_ok c -> (k < c_nd c)%nat -> (0 <= c_min c < c_full c)%Z ->
     (c_cap c = true -> (0 <= vget Rops (c_maxf c) k)%R) ->
     vget Rops (o_fabf (snd (abf_step Rops c (fst (abf_run Rops c h)) i))) k
     = spec_force_samples c (attributed Rops c (trace_of Rops c (h ++ [i]))) (bins Rops c (i_x i)) k.
 Proof. exact applied_force_is_smoothed_negative_mean. Qed.
-Print Assumptions C04_applied_force_is_smoothed_negative_mean.
+Print Assumptions C04_applied_force_is_smoothed_negative_mean_partial.
 
 Theorem C04_no_force_outside_grid :
   forall (c : @abf_cfg R) (s : @abf_state R) (i : @abf_in R) (k : nat),
@@ -134,12 +150,17 @@ Print Assumptions C04_run_boundary_history.
 
 (* ---- non-vacuity *)
 
-(* wf_cfg holds for a lagged configuration, with a two-step history *)
+(* wf_cfg and jac_ok hold for a lagged configuration with hideJacobian (non-vacuously: applyBias on), with a
+   two-step history; jac_ok holds for every configuration without hideJacobian or with same-step forces *)
 Example C04_example_wf :
-  let c := @mkCfg R 1 [0%R] [1%R] [2%Z] [false] 2 1 false true false [0%R] false false [false] false in
-  let h := [@mkIn R [(1/2)%R] [1%R] [0%R] [0%R] false; @mkIn R [(1/2)%R] [0%R] [0%R] [0%R] false] in
-  wf_cfg c /\ length (trace_of Rops c h) = 2%nat.
+  let c := @mkCfg R 1 [0%R] [1%R] [2%Z] [false] 2 1 true true false [0%R] false false [false] true [false] in
+  let h := [@mkIn R [(1/2)%R] [1%R] [0%R] [3%R] false; @mkIn R [(1/2)%R] [0%R] [0%R] [3%R] false] in
+  wf_cfg c /\ jac_ok c /\ c_hidej c = true /\ c_same_step c = false /\ length (trace_of Rops c h) = 2%nat.
 Proof. exact example_wf_lagged. Qed.
+Example C04_example_jac_ok_nohide : forall c : @abf_cfg R, c_hidej c = false -> jac_ok c.
+Proof. exact jac_ok_nohide. Qed.
+Example C04_example_jac_ok_same : forall c : @abf_cfg R, c_same_step c = true -> jac_ok c.
+Proof. exact jac_ok_same. Qed.
 
 (* T4's premise s_started = true holds after any step *)
 Example C04_example_started : forall (c : @abf_cfg R) s i, s_started (fst (abf_step Rops c s i)) = true.
